@@ -565,7 +565,7 @@ type pcDriver struct {
 	errKinds      int         // number of source error kinds in use
 	net           *simkit.Net // HTTP mode
 	stalledOpen   int
-	httpOpen      int // HTTP source calls in progress (also those of the automatic refresh)
+	httpOpen      int     // HTTP source calls in progress (also those of the automatic refresh)
 	fullRefreshAt []int64 // steps at which a complete (uncancelled) refresh published
 }
 
